@@ -1195,6 +1195,13 @@ def case_remove_pbc(rng, ctx):
             for k in chunked:
                 sel = (owner_p == k) & sel_atoms
                 if sel.sum() >= 2:
+                    # the functions walk along adjacent array positions of the atoms they are given: the original geometry
+                    # is only determined when each such step is a unique minimum image (always true for the compact
+                    # molecules; an extended chain of which a selection drops several consecutive atoms is not)
+                    steps = np.sqrt((np.diff(orig[mi][sel], axis=0) ** 2).sum(-1))
+                    if steps.max() >= 0.49 * float(G.heights(b).min()):
+                        ctx.note("selection_gap_beyond_half_box_not_judged")
+                        continue
                     within(ctx, "unwrap_restores_geometry", pair_dists(res[mi][sel]) - pair_dists(orig[mi][sel]), 2 * tol,
                            "%s does not reassemble molecule %d" % (tag, k))
                 if sel.any():
